@@ -69,7 +69,12 @@ def case(cid, rng, kind, padded, est):
     try:
         with warnings.catch_warnings():
             warnings.simplefilter("ignore")
-            m = OrthogonalRegression(use_orthogonal_projector=not padded, linear_estimator=lin).fit(X.astype(float), Y.astype(float))
+            m = OrthogonalRegression(use_orthogonal_projector=not padded, linear_estimator=lin)
+            if lin is not None and rng.random() < 0.6:
+                # history: the same estimator object (and its user-supplied linear estimator) was fitted on other data before
+                m.fit(rng.integers(-4, 5, size=X.shape).astype(float), rng.integers(-4, 5, size=Y.shape).astype(float))
+                c["kind"] += "/refit"
+            m.fit(X.astype(float), Y.astype(float))
             c["Om"] = fq(np.asarray(m.coef_).T)
             newX = rng.integers(-4, 5, size=(3, f))
             c["newX"] = newX.astype(int).tolist()
